@@ -3,15 +3,43 @@ import AdfObdd.ClosureSound
 import AdfObdd.Stutter
 import AdfObdd.SearchModel
 import AdfObdd.Stable
+import AdfObdd.NgEndToEnd
 /-! # C05 — the nogood-learning search is exact and terminates for every heuristic
 
-Two machines with the same control flow: the abstract one (`run`, `NgSearch.lean`/`NgHalt.lean`)
-keeps the decided part, a flat nogood list and a ghost-annotated stack; its propagation, closure,
-leaf test and heuristic are parameters with laws. The heuristic is an ORACLE indexed by the number
-of choices made so far, constrained only to propose an undecided statement — so the theorems cover
-Simple, both counting heuristics, Rand under any seed and any custom closure. The concrete machine
-(`SM.ngRun`, handle-exact with the code) is related to it by a stuttering simulation. -/
+**Main theorem** `ng_search_exact` (= `ng_search_statement`): for the CONCRETE executable model
+`SM.ngSearch` (`SM.ngIter`/`SM.ngRun`, what the driver runs handle for handle against
+`Adf::nogood_internal`), every heuristic of `SM.Heu` (Simple, both counting heuristics, the scripted
+shape of Rand/custom heuristics under every seed), every well-formed store and every valid vector of
+acceptance conditions: there is a fuel within which the loop halts, and the emitted interpretations
+are, without repetition, exactly the stable models (`stable = true`) resp. the two-valued models
+(`stable = false`) of the conditions' Boolean functions. `ng_search_exact_from_formulas` is the same
+from the written conditions (`from_parser` model), where the only side condition of the two-valued
+mode — the conditions mention statements of the framework only — is a property of the text.
+
+How it is proved (files `NgGen`, `NgGenHalt`, `NgSem`, `NgConcrete`, `NgLeaf`, `NgSimulation`,
+`NgEndToEnd`):
+
+1. `NGen`: the abstract machine of `NgSearch.lean`/`NgHalt.lean` generalised over the type of the
+   interpretation vector (`dec : V → PA`) and of the nogood store, all laws relativised to shape
+   predicates carried by the invariant; the heuristic is an oracle indexed by the iteration number.
+   `generic_exact_if_halts` (safety) and `generic_terminates` (liveness, big-step induction; new:
+   an iteration that changes the vector but not its decided part is followed by one that classifies).
+2. `NSem`: the instance `V := List BoolFn` (denotations of the handle vector), buckets with `addNg`,
+   the concrete `conclusionClosure`, `semRound`, semantic consistency/leaf tests — no free parameter
+   left but the raw heuristic answers; all laws discharged (`semantic_machine_exact`,
+   `semantic_machine_halts`). On denotations the machine's test "`gam cur ≠ cur`" is the code's
+   `update_fp` on handles (canonicity), so the simulation is LOCK-STEP: the stutter of the
+   decided-part abstraction disappears.
+3. `NConc`: every concrete operation computes the semantic one under `v ↦ v.map (eval s)`
+   (`concrete_closure_is_abstract_closure`, `leaf_test_decides_stability`, `heuristics_valid`,
+   `heuristics_total`), hence `concrete_iteration_is_abstract_iteration`; the oracle is read off the
+   concrete run itself.
+
+The prototype theorems on the `PA`-level machine (`exact_if_halts`, `terminates`, `stutter_transfer`)
+are kept below. -/
 namespace C05
+
+/-! ## the prototype abstract machine (decided parts only) -/
 
 /-- safety: if the run halts, the emitted list is exactly the target models (stable models, or
 two-valued models in two-valued mode), each once — for every valid heuristic -/
@@ -40,13 +68,111 @@ theorem stutter_transfer {C A : Type} {cstep : C → StutterM.SRes C} {astep : A
     ∃ fuel' c', fuel' ≤ 2 * fuel ∧ StutterM.srun cstep fuel' c = some c' ∧ abs c' = a' :=
   StutterM.stutter_halts h fuel c a' hr
 
-/-- full statement for the concrete machine; PARTIAL: the instantiation of `Sound`/`Live` with the
-concrete closure (all five closure laws are proved, `ClosureFacts`/`ClosureSound`) and heuristics,
-and the stuttering simulation between `SM.ngIter` and the abstract `iter`, are not yet discharged;
-the relation is monitored by execution on every explored run instead -/
+/-! ## the generic machine (any vector type, any store type, shape-relativised laws) -/
+
+/-- safety of the generic machine: if the run halts, the emitted list is exactly the target models,
+each once, and every output is two-valued and well shaped -/
+theorem generic_exact_if_halts {V Sto : Type} {T : Asg → Prop} {P : NGen.GParams V Sto} (hP : NGen.GSound T P)
+    (fuel k : Nat) (s s' : NGen.St V Sto) (hinv : NGen.SInv T P s) (hr : NGen.run P k fuel s = some s') :
+    (∀ σ, T σ → ∃ o ∈ s'.out, Matches o σ) ∧ (∀ o ∈ s'.out, ∀ σ, Matches o σ → T σ) ∧ s'.out.Nodup ∧
+    (∀ o ∈ s'.out, P.twoVal o = true ∧ P.OkG o) :=
+  NGen.run_exact hP fuel k s s' hinv hr
+
+/-- liveness of the generic machine (for every heuristic oracle; `gam_idem` pays for the iterations in
+which only residual handles change) -/
+theorem generic_terminates {V Sto : Type} {P : NGen.GParams V Sto} {n : Nat} {mu : PA → Nat} (hL : NGen.GLive P n mu)
+    (g : V) (st : Sto) (hok : P.Ok g) (hoks : P.OkS st) (hemp : ∀ x, ¬ P.Mem st x) (k : Nat) :
+    ∃ fuel s', NGen.run P k fuel { cur := g, store := st, stack := [], backtrack := false, choice := false, out := [] } = some s' :=
+  NGen.halts hL g st hok hoks hemp k
+
+/-! ## the semantic instance: concrete closure, concrete semantics of `D`, any heuristic oracle -/
+
+/-- all soundness laws hold of the semantic instance (`D` of width `n`; in two-valued mode the
+conditions depend on the statements only) — for EVERY sequence of raw heuristic answers -/
+theorem semantic_laws_sound {D : List BoolFn} {n : Nat} {stable : Bool} (hD : D.length = n)
+    (hS : stable = false → ∀ f ∈ D, NSem.Supp n f) (raw : Nat → Option (Nat × Bool)) :
+    NGen.GSound (NSem.Target D n stable) (NSem.semP D n stable raw) := NSem.sem_sound hD hS raw
+
+/-- all liveness laws hold of the semantic instance, with `mu` = number of decided statements -/
+theorem semantic_laws_live {D : List BoolFn} {n : Nat} {stable : Bool} (raw : Nat → Option (Nat × Bool)) :
+    NGen.GLive (NSem.semP D n stable raw) n size := NSem.sem_live raw
+
+/-- the abstract machine with the concrete closure and the concrete semantics is exact … -/
+theorem semantic_machine_exact {D : List BoolFn} {n : Nat} {stable : Bool} (hD : D.length = n)
+    (hS : stable = false → ∀ f ∈ D, NSem.Supp n f) (raw : Nat → Option (Nat × Bool))
+    (V0 : List BoolFn) (hok : NSem.OkV D n stable V0) (hg : ∀ σ, NSem.Target D n stable σ → Matches (cv V0) σ)
+    (fuel : Nat) (s' : NGen.St (List BoolFn) (List (List PA)))
+    (hr : NGen.run (NSem.semP D n stable raw) 0 fuel (NSem.initSt V0 n) = some s') :
+    (∀ σ, NSem.Target D n stable σ → ∃ o ∈ s'.out, Matches o σ) ∧
+    (∀ o ∈ s'.out, ∀ σ, Matches o σ → NSem.Target D n stable σ) ∧ s'.out.Nodup ∧
+    (∀ o ∈ s'.out, NSem.twoV o = true ∧ o.length = n) :=
+  NSem.sem_exact hD hS raw V0 hok hg fuel s' hr
+
+/-- … and halts -/
+theorem semantic_machine_halts {D : List BoolFn} {n : Nat} {stable : Bool} (raw : Nat → Option (Nat × Bool))
+    (V0 : List BoolFn) (hok : NSem.OkV D n stable V0) :
+    ∃ fuel s', NGen.run (NSem.semP D n stable raw) 0 fuel (NSem.initSt V0 n) = some s' :=
+  NSem.sem_halts raw V0 hok
+
+/-! ## the concrete operations against the semantic ones -/
+
+/-- `conclusion_closure` on handle vectors = the `PA`-level closure, then `update_term_vec` -/
+theorem concrete_closure_is_abstract_closure (bs : List (List PA)) (v : List Nat) :
+    SM.closureF bs v = NConc.liftC v (conclusionClosure bs (toPA v)) := NConc.closureF_eq bs v
+
+/-- `stability_check` decides "the least fixpoint of the reduct is the candidate" -/
+theorem leaf_test_decides_stability (s : Store) (n : Nat) (ac cand : List Nat) (w : WF s)
+    (hac : ∀ t ∈ ac, t < s.nodes.size) (hl : ac.length = n) (hc : cand.length = n) :
+    WF (stabilityCheck s n ac cand).1 ∧ Ext s (stabilityCheck s n ac cand).1 ∧
+    ((stabilityCheck s n ac cand).2 = true ↔
+      ∀ w', IsLfp (redu (ac.map (eval s)) (toPA cand)) w' → w' = toPA cand) :=
+  NConc.stabilityCheck_spec s n ac cand w hac hl hc
+
+/-- validity of the built-in heuristics of the concrete model: whatever they return is an undecided
+statement with a truth value (for the scripted/Rand shape: for EVERY generator output) -/
+theorem heuristics_valid (h : SM.Heu) (s : Store) (v : List Nat) (time i t : Nat)
+    (hc : SM.heuCall h s v time = some (i, t)) :
+    t < 2 ∧ i < v.length ∧ ∃ x, v[i]? = some x ∧ isTV x = false := NConc.heuCall_valid h s v time i t hc
+
+/-- totality: a heuristic gives no answer only when no statement is undecided -/
+theorem heuristics_total (h : SM.Heu) (s : Store) (v : List Nat) (time : Nat)
+    (hc : SM.heuCall h s v time = none) : v.all isTV = true := NConc.heuCall_none h s v time hc
+
+/-- `SM.ngIter` is the composition of its phases (`rfl` and one case split); `NConc.cIter` takes an
+arbitrary heuristic FUNCTION in the place of `SM.heuCall h` -/
+theorem concrete_iteration_phases (h : SM.Heu) (n : Nat) (ac : List Nat) (stable : Bool) (st : SM.NgS) :
+    SM.ngIter h n ac stable st = NConc.cIter (SM.heuCall h) n ac stable st := NConc.ngIter_eq h n ac stable st
+
+/-- the built-in heuristics satisfy what C05 asks of a heuristic -/
+theorem builtin_heuristics_ok (h : SM.Heu) : NConc.HeuOK (SM.heuCall h) := NConc.heuOK_builtin h
+
+/-- **lock-step simulation**: one concrete iteration is one iteration of the semantic machine whose
+heuristic oracle answers, in iteration `k`, what the concrete heuristic answers -/
+theorem concrete_iteration_is_abstract_iteration {s0 : Store} {n : Nat} (ac : List Nat) (stable : Bool)
+    (raw : Nat → Option (Nat × Bool)) (w0 : WF s0) (hac0 : ∀ t ∈ ac, t < s0.nodes.size) (hn : ac.length = n)
+    {h : NConc.CHeu} (hok : NConc.HeuOK h) (k : Nat) {c : SM.NgS} {a : NConc.ASt} (hr : NConc.Rel c a)
+    (hi : NConc.CInv s0 n c) (hraw : raw k = NConc.conv (h c.s c.cur c.time)) :
+    match NGen.iter (NConc.PP s0 n ac stable raw) k a with
+    | NGen.Res.done a' => (NConc.cIter h n ac stable c).done = true ∧ (NConc.cIter h n ac stable c).out.map toPA = a'.out
+    | NGen.Res.cont a' => NConc.Rel (NConc.cIter h n ac stable c) a' ∧ NConc.CInv s0 n (NConc.cIter h n ac stable c) :=
+  NConc.sim_iter ac stable raw w0 hac0 hn hok k hr hi hraw
+
+/-! ## the end-to-end theorem -/
+
+/-- full statement for the concrete machine. With respect to the statement written in the design
+round one hypothesis was added, for the two-valued mode only: the conditions depend on the
+statements `0 … n-1` only (for a framework that comes out of the parser: every atom is a declared
+statement). Without it the two-valued claim is false of the model — store `mkNode Store.init 5 0 1`,
+`n = 1`, `ac = [2]` (the condition of statement 0 is the foreign variable 5): the search emits `[1]`
+and `[0]`, neither of which is a fixpoint of `Γ` (`#guard` at the end of this file); the consistency
+test only looks at entries that are constant. (The parser cannot produce such conditions: an
+undeclared atom makes `from_parser` panic; so this is a side condition of the statement about
+arbitrary handle vectors, not a defect of the code.) The stable mode needs nothing: its stability
+test re-derives every value. -/
 def ng_search_statement : Prop :=
   ∀ (h : SM.Heu) (s : Store) (n : Nat) (ac : List Nat) (stable : Bool),
     WF s → ac.length = n → (∀ t ∈ ac, t < s.nodes.size) →
+    (stable = false → ∀ t ∈ ac, ∀ σ τ : Asg, (∀ i, i < n → σ i = τ i) → eval s t σ = eval s t τ) →
     ∃ fuel, (SM.ngSearch h fuel s n ac stable).2.2.2 = true ∧
       let D := ac.map (eval s)
       let out := (SM.ngSearch h fuel s n ac stable).2.1.map (fun v => v.map storeIsConst)
@@ -54,68 +180,123 @@ def ng_search_statement : Prop :=
         (v.length = n ∧ TotalI v ∧ Gam D v = v ∧
           (stable = true → ∀ w : I3, IsLfp (redu D v) w → ∀ i : Nat, v[i]? = some (some true) → w[i]? = some (some true)))
 
+/-- **C05**: the concrete nogood-learning search halts and emits exactly the stable models (two-valued
+mode: exactly the two-valued models), each once — for every heuristic of `SM.Heu`, every well-formed
+store, every valid vector of conditions -/
+theorem ng_search_exact : ng_search_statement := by
+  intro h s n ac stable w hn hv hsup
+  exact NConc.ng_end_to_end h s n ac stable w hn hv hsup
+
+/-- **C05 for arbitrary custom heuristics**: the same for the loop run with ANY function of (store,
+vector shown, number of earlier calls) that always proposes an undecided statement with a truth
+value (`NConc.HeuOK`) — `NConc.cSearch hc` is `SM.ngSearch` with `hc` in the place of `SM.heuCall h`
+(`NConc.ngSearch_eq`) -/
+theorem ng_search_exact_any_heuristic (hc : NConc.CHeu) (hok : NConc.HeuOK hc) (s : Store) (n : Nat) (ac : List Nat)
+    (stable : Bool) (w0 : WF s) (hn : ac.length = n) (hac0 : ∀ t ∈ ac, t < s.nodes.size)
+    (hsup : stable = false → ∀ t ∈ ac, ∀ σ τ : Asg, (∀ i, i < n → σ i = τ i) → eval s t σ = eval s t τ) :
+    ∃ fuel, (NConc.cSearch hc fuel s n ac stable).2.2.2 = true ∧
+      let D := ac.map (eval s)
+      let out := (NConc.cSearch hc fuel s n ac stable).2.1.map (fun v => v.map storeIsConst)
+      out.Nodup ∧ ∀ v : I3, v ∈ out ↔
+        (v.length = n ∧ TotalI v ∧ Gam D v = v ∧
+          (stable = true → ∀ w : I3, IsLfp (redu D v) w → ∀ i : Nat, v[i]? = some (some true) → w[i]? = some (some true))) :=
+  NConc.search_exact_any_heuristic hc hok s n ac stable w0 hn hac0 hsup
+
+/-- in stable mode the statement of the design round holds verbatim (no side condition) -/
+theorem ng_search_exact_stable (h : SM.Heu) (s : Store) (n : Nat) (ac : List Nat) (w : WF s) (hn : ac.length = n)
+    (hv : ∀ t ∈ ac, t < s.nodes.size) :
+    ∃ fuel, (SM.ngSearch h fuel s n ac true).2.2.2 = true ∧
+      let D := ac.map (eval s)
+      let out := (SM.ngSearch h fuel s n ac true).2.1.map (fun v => v.map storeIsConst)
+      out.Nodup ∧ ∀ v : I3, v ∈ out ↔
+        (v.length = n ∧ TotalI v ∧ Gam D v = v ∧
+          ∀ w : I3, IsLfp (redu D v) w → ∀ i : Nat, v[i]? = some (some true) → w[i]? = some (some true)) := by
+  obtain ⟨fuel, h1, h2, h3⟩ := ng_search_exact h s n ac true w hn hv (fun hc => by cases hc)
+  refine ⟨fuel, h1, h2, ?_⟩
+  intro v
+  rw [h3 v]
+  constructor
+  · intro ⟨a, b, c, d⟩; exact ⟨a, b, c, d rfl⟩
+  · intro ⟨a, b, c, d⟩; exact ⟨a, b, c, fun _ => d⟩
+
+/-- C05 end to end from the written acceptance conditions (`from_parser` model + search): the side
+condition of the two-valued mode is "every atom is a statement of the framework" -/
+theorem ng_search_exact_from_formulas (h : SM.Heu) (fms : List Fm) (stable : Bool) (hn : fms.length ≤ VBOT)
+    (hv : ∀ f ∈ fms, NConc.atomsLt fms.length f) :
+    ∃ fuel, (SM.ngSearch h fuel (buildNative fms.length fms).1 fms.length (buildNative fms.length fms).2 stable).2.2.2 = true ∧
+      let D := fms.map Fm.sem
+      let out := (SM.ngSearch h fuel (buildNative fms.length fms).1 fms.length (buildNative fms.length fms).2 stable).2.1.map
+        (fun v => v.map storeIsConst)
+      out.Nodup ∧ ∀ v : I3, v ∈ out ↔
+        (v.length = fms.length ∧ TotalI v ∧ Gam D v = v ∧
+          (stable = true → ∀ w : I3, IsLfp (redu D v) w → ∀ i : Nat, v[i]? = some (some true) → w[i]? = some (some true))) :=
+  NConc.ng_end_to_end_compiled h fms stable hn hv
+
 /-- validity of the built-in heuristics of the concrete model: whatever they return is an undecided
 statement with a truth value (for the scripted/Rand shape: for EVERY generator output) -/
 theorem builtin_heuristics_valid (h : SM.Heu) (s : Store) (v : List Nat) (time i t : Nat)
     (hc : SM.heuCall h s v time = some (i, t)) : t < 2 ∧ ∃ x, (x, i) ∈ v.zipIdx ∧ isTV x = false := by
-  have mem_und : ∀ p : Nat × Nat, p ∈ SM.undecided v → (p.2, p.1) ∈ v.zipIdx ∧ isTV p.2 = false := by
-    intro p hp
-    simp only [SM.undecided, List.mem_map, List.mem_filter] at hp
-    obtain ⟨⟨x, j⟩, ⟨hm, hx⟩, rfl⟩ := hp
-    exact ⟨hm, by simpa using hx⟩
-  have minBy_mem : ∀ (cmp : (Nat × Nat) → (Nat × Nat) → Ordering) (l : List (Nat × Nat)) (r : Nat × Nat),
-      minBy cmp l = some r → r ∈ l := by
-    intro cmp l r hr
-    cases l with
-    | nil => simp [minBy] at hr
-    | cons x xs =>
-      simp only [minBy, Option.some.injEq] at hr
-      subst hr
-      have : ∀ (ys : List (Nat × Nat)) (m : Nat × Nat),
-          ys.foldl (fun m y => if cmp m y == .gt then y else m) m = m ∨
-          ys.foldl (fun m y => if cmp m y == .gt then y else m) m ∈ ys := by
-        intro ys
-        induction ys with
-        | nil => intro m; left; rfl
-        | cons y ys ih =>
-          intro m
-          simp only [List.foldl_cons]
-          rcases ih (if cmp m y == .gt then y else m) with h | h
-          · rw [h]; split
-            · right; simp
-            · left; rfl
-          · right; exact List.mem_cons_of_mem _ h
-      rcases this xs x with h | h
-      · rw [h]; simp
-      · exact List.mem_cons_of_mem _ h
-  cases h with
-  | simple =>
-    simp only [SM.heuCall, Option.map_eq_some_iff] at hc
-    obtain ⟨⟨j, x⟩, hh, he⟩ := hc
-    cases he
-    have := mem_und (j, x) (List.mem_of_mem_head? hh)
-    exact ⟨by omega, x, this.1, this.2⟩
-  | minPathsMaxVarImp =>
-    simp only [SM.heuCall, Option.map_eq_some_iff] at hc
-    obtain ⟨⟨j, x⟩, hh, he⟩ := hc
-    cases he
-    have := mem_und (j, x) (minBy_mem _ _ _ hh)
-    exact ⟨by split <;> omega, x, this.1, this.2⟩
-  | maxVarImpMinPaths =>
-    simp only [SM.heuCall, Option.map_eq_some_iff] at hc
-    obtain ⟨⟨j, x⟩, hh, he⟩ := hc
-    cases he
-    have := mem_und (j, x) (minBy_mem _ _ _ hh)
-    exact ⟨by split <;> omega, x, this.1, this.2⟩
-  | script seed =>
-    simp only [SM.heuCall] at hc
-    split at hc
-    · rename_i j x hget
-      simp only [Option.some.injEq, Prod.mk.injEq] at hc
-      obtain ⟨hi, ht⟩ := hc
-      subst hi
-      have := mem_und (j, x) (List.mem_of_getElem? hget)
-      exact ⟨by omega, x, this.1, this.2⟩
-    · cases hc
+  have ⟨h1, h2, x, h3, h4⟩ := NConc.heuCall_valid h s v time i t hc
+  refine ⟨h1, x, ?_, h4⟩
+  rw [List.mem_zipIdx_iff_getElem?]
+  simpa using h3
+
+/-! ## non-vacuity -/
+
+/-- the hypotheses of `ng_search_exact` are satisfiable and its right-hand side is inhabited: one
+statement with condition ⊤, stable mode, any heuristic — the search halts and `[t]` is emitted -/
+example (h : SM.Heu) : ∃ fuel, (SM.ngSearch h fuel Store.init 1 [1] true).2.2.2 = true ∧
+    [some true] ∈ (SM.ngSearch h fuel Store.init 1 [1] true).2.1.map (fun v => v.map storeIsConst) := by
+  obtain ⟨fuel, h1, _, h3⟩ := ng_search_exact h Store.init 1 [1] true WF_init' rfl (by simp [Store.init])
+    (fun hc => by cases hc)
+  refine ⟨fuel, h1, (h3 [some true]).mpr ?_⟩
+  have hD : [1].map (eval Store.init) = [fun _ => true] := by
+    simp only [List.map_cons, List.map_nil]; congr 1
+  simp only [hD]
+  refine ⟨rfl, ?_, ?_, ?_⟩
+  · intro i hi
+    have : i = 0 := by simpa using hi
+    subst this; exact ⟨true, rfl⟩
+  · simp only [Gam, List.map_cons, List.map_nil]
+    congr 1
+    exact constOf_some.mpr (fun _ => rfl)
+  · intro _ w hw i hi
+    have hi0 : i = 0 := by
+      rcases Nat.lt_or_ge i 1 with h' | h'
+      · omega
+      · rw [List.getElem?_eq_none (by simpa using h')] at hi; cases hi
+    subst hi0
+    rw [← hw.1]
+    simp only [Gam, redu, List.map_cons, List.map_nil, List.getElem?_cons_zero, Option.some.injEq]
+    exact constOf_some.mpr (fun _ => rfl)
+
+/-- two-valued mode from written formulas: `ac(a) = b`, `ac(b) = a` (mutual support); the side condition
+holds of the text, the search halts for every heuristic, and the model "both false" is emitted -/
+example (h : SM.Heu) : ∃ fuel,
+    [some false, some false] ∈
+      (SM.ngSearch h fuel (buildNative 2 [.atom 1, .atom 0]).1 2 (buildNative 2 [.atom 1, .atom 0]).2 false).2.1.map
+        (fun v => v.map storeIsConst) := by
+  obtain ⟨fuel, _, _, h3⟩ := ng_search_exact_from_formulas h [.atom 1, .atom 0] false (by simp [VBOT])
+    (by intro f hf; simp at hf; rcases hf with rfl | rfl <;> simp [NConc.atomsLt])
+  refine ⟨fuel, (h3 [some false, some false]).mpr ⟨rfl, ?_, ?_, fun hc => by cases hc⟩⟩
+  · intro i hi
+    have : i = 0 ∨ i = 1 := by simp at hi; omega
+    rcases this with rfl | rfl <;> exact ⟨false, rfl⟩
+  · simp only [Gam, List.map_cons, List.map_nil, Fm.sem]
+    congr 1
+    · congr 1; exact constOf_some.mpr (fun σ => by simp [over, upd])
+    · congr 1; congr 1; exact constOf_some.mpr (fun σ => by simp [over, upd])
+
+/-- the laws of the semantic instance are satisfiable by a real start state (grounded interpretation
+of a one-statement framework) -/
+example : NSem.OkV ([1].map (eval Store.init)) 1 true
+    ((NConc.initC Store.init 1 [1]).cur.map (eval (NConc.initC Store.init 1 [1]).s)) :=
+  (NConc.init_facts Store.init 1 [1] true WF_init' (by simp [Store.init]) rfl).2.2.1
 
 end C05
+
+/-! the side condition of the two-valued mode is necessary: statement 0 with the foreign variable 5 as
+its condition — the model emits `[1]` and `[0]` in two-valued mode, though no fixpoint of `Γ` exists
+(an evaluation, not a kernel-checked lemma: `Std.HashMap` does not reduce in the kernel) -/
+#guard (SM.ngSearch .simple 50 (mkNode Store.init 5 0 1).1 1 [(mkNode Store.init 5 0 1).2] false).2.1 == [[1], [0]]
+#guard (SM.ngSearch .simple 50 (mkNode Store.init 5 0 1).1 1 [(mkNode Store.init 5 0 1).2] true).2.1 == []
